@@ -178,10 +178,16 @@ impl Driver {
         }
         let mut mid = mid;
         // Byzantine sender / corruption in flight: replace by a forged message
-        if Some(from) == self.byz || rate(w, "corrupt") > 0 || rate(w, "restamp") > 0 || rate(w, "script_mut") > 0 {
+        if Some(from) == self.byz || rate(w, "corrupt") > 0 || rate(w, "restamp") > 0 || rate(w, "script_mut") > 0 || rate(w, "equivocate") > 0 {
             if let Some(ops) = crate::profiles::draw_forge(w, rng, mid, from, self.byz) {
                 let e = self.eid();
-                let by = if Some(from) == self.byz { self.byz } else { None };
+                let by = if Some(from) == self.byz {
+                    self.byz
+                } else if ops.iter().any(|o| matches!(o, ForgeOp::OwnRewrite { .. })) {
+                    Some(from)
+                } else {
+                    None
+                };
                 w.apply(e, &Ev::Forge { src: mid, to, by, ops, payload: None });
                 if w.msgs.contains_key(&(e, to as u32)) {
                     mid = (e, to as u32);
